@@ -17,9 +17,11 @@ import (
 	"bytes"
 	"fmt"
 	"go/ast"
+	"go/importer"
 	"go/parser"
 	"go/printer"
 	"go/token"
+	"go/types"
 	"os"
 	"reflect"
 	"sort"
@@ -356,6 +358,292 @@ func c17_genC17(repo string) string {
 	if len(k1) < 5 || len(k2) < 5 || len(k3) < 3 || len(k4) < 3 || len(k5) < 4 || len(k6) < 3 {
 		panic("store.go: composite literals of stateFromCode/codeFromState/... not found")
 	}
+	c17_codeFieldTables(&sb, repo, need("stateFromCode"))
+	c17_opcodes(&sb, repo)
 	sb.WriteString("end Risor.Generated.C17\n")
 	return sb.String()
+}
+
+func c17_sortedSet(m map[string]bool) []string {
+	out := []string{}
+	for k := range m {
+		out = append(out, k)
+	}
+	sort.Strings(out)
+	return out
+}
+
+// c17_codeFieldTables: the fields of `type Code struct` against what is serialised and what the
+// VM can observe.  stateFromCodeReads / flattenReads are syntactic (selectors on the identifier
+// `code` / on the receiver); codeAccessors and vmCodeMethods are type-checked (go/types, loader
+// of c09.go): a selector counts when the selected object is a field / method of compiler.Code.
+func c17_codeFieldTables(sb *strings.Builder, repo string, stateFromCode *ast.FuncDecl) {
+	fset := token.NewFileSet()
+	l := &c09Loader{repo: repo, fset: fset, pkgs: map[string]*c09Pkg{}, busy: map[string]bool{}}
+	l.std = importer.ForCompiler(fset, "source", nil)
+	vmPkg, err := l.load(c09Mod + "/vm")
+	if err != nil {
+		panic(fmt.Sprintf("C17: package vm: %v", err))
+	}
+	cp, err := l.load(c09Mod + "/compiler")
+	if err != nil {
+		panic(fmt.Sprintf("C17: package compiler: %v", err))
+	}
+	codeObj, _ := cp.pkg.Scope().Lookup("Code").(*types.TypeName)
+	if codeObj == nil {
+		panic("C17: compiler.Code not found")
+	}
+	codeNamed, _ := codeObj.Type().(*types.Named)
+	codeStruct, _ := codeObj.Type().Underlying().(*types.Struct)
+	if codeNamed == nil || codeStruct == nil {
+		panic("C17: compiler.Code is not a named struct type")
+	}
+	isCode := func(t types.Type) bool {
+		if p, ok := t.(*types.Pointer); ok {
+			t = p.Elem()
+		}
+		n, ok := t.(*types.Named)
+		return ok && n.Obj() == codeObj
+	}
+	// the method selected is declared on Code/*Code (also when promoted through an embedding,
+	// e.g. vm's `type code struct { *compiler.Code; ... }`)
+	isCodeMethod := func(o types.Object) bool {
+		fn, ok := o.(*types.Func)
+		if !ok {
+			return false
+		}
+		sig, ok := fn.Type().(*types.Signature)
+		return ok && sig.Recv() != nil && isCode(sig.Recv().Type())
+	}
+	codeField := map[*types.Var]bool{}
+	var structFields []string
+	for i := 0; i < codeStruct.NumFields(); i++ {
+		codeField[codeStruct.Field(i)] = true
+	}
+	// source order from the syntax (go/types keeps it too; the syntax is the reference)
+	var codeGo *ast.File
+	for _, f := range cp.files {
+		if strings.HasSuffix(fset.Position(f.Pos()).Filename, "/compiler/code.go") {
+			codeGo = f
+		}
+	}
+	if codeGo == nil {
+		panic("C17: compiler/code.go not found")
+	}
+	for _, d := range codeGo.Decls {
+		gd, ok := d.(*ast.GenDecl)
+		if !ok || gd.Tok != token.TYPE {
+			continue
+		}
+		for _, s := range gd.Specs {
+			ts := s.(*ast.TypeSpec)
+			st, ok := ts.Type.(*ast.StructType)
+			if !ok || ts.Name.Name != "Code" {
+				continue
+			}
+			for _, fl := range st.Fields.List {
+				if len(fl.Names) == 0 {
+					panic("C17: embedded field in Code")
+				}
+				for _, nm := range fl.Names {
+					structFields = append(structFields, nm.Name)
+				}
+			}
+		}
+	}
+	if len(structFields) != codeStruct.NumFields() || len(structFields) < 5 {
+		panic("C17: fields of type Code struct not found")
+	}
+	isField := map[string]bool{}
+	for _, f := range structFields {
+		isField[f] = true
+	}
+	sb.WriteString("/-- every field of `type Code struct` (compiler/code.go), in source order -/\n")
+	sb.WriteString("def codeStructFields : List String := " + c17_leanStrList(structFields) + "\n\n")
+
+	// selectors `<ident>.f` / `<ident>.M()` directly on the identifier called `name`
+	identReads := func(body ast.Node, name string) []string {
+		set := map[string]bool{}
+		called := map[*ast.SelectorExpr]bool{}
+		ast.Inspect(body, func(n ast.Node) bool {
+			if c, ok := n.(*ast.CallExpr); ok {
+				if sel, ok := c.Fun.(*ast.SelectorExpr); ok {
+					called[sel] = true
+				}
+			}
+			return true
+		})
+		ast.Inspect(body, func(n ast.Node) bool {
+			sel, ok := n.(*ast.SelectorExpr)
+			if !ok {
+				return true
+			}
+			if id, ok := sel.X.(*ast.Ident); ok && id.Name == name {
+				if called[sel] && !isField[sel.Sel.Name] {
+					set[sel.Sel.Name+"()"] = true
+				} else {
+					set[sel.Sel.Name] = true
+				}
+			}
+			return true
+		})
+		return c17_sortedSet(set)
+	}
+	sfc := identReads(stateFromCode.Body, "code")
+	if len(sfc) < 5 {
+		panic("C17: stateFromCode reads of `code` not found")
+	}
+	sb.WriteString("/-- the fields of Code that stateFromCode (compiler/store.go) selects on an identifier called `code` (parameter and loop variable), sorted; a method call is written `M()` -/\n")
+	sb.WriteString("def stateFromCodeReads : List String := " + c17_leanStrList(sfc) + "\n\n")
+
+	// methods of *Code in code.go
+	type meth struct {
+		name string
+		fd   *ast.FuncDecl
+	}
+	var meths []meth
+	for _, d := range codeGo.Decls {
+		fd, ok := d.(*ast.FuncDecl)
+		if !ok || fd.Recv == nil || fd.Body == nil || c05_recvName(fd) != "Code" {
+			continue
+		}
+		meths = append(meths, meth{fd.Name.Name, fd})
+	}
+	recvIdent := func(fd *ast.FuncDecl) string {
+		if len(fd.Recv.List[0].Names) == 0 {
+			return "_"
+		}
+		return fd.Recv.List[0].Names[0].Name
+	}
+	var flat []string
+	foundFlatten := false
+	for _, m := range meths {
+		if m.name == "Flatten" {
+			foundFlatten = true
+			for _, r := range identReads(m.fd.Body, recvIdent(m.fd)) {
+				if isField[r] {
+					flat = append(flat, r)
+				}
+			}
+		}
+	}
+	if !foundFlatten {
+		panic("C17: (*Code).Flatten not found")
+	}
+	sb.WriteString("/-- the fields of Code that (*Code).Flatten reads through its receiver, sorted -/\n")
+	sb.WriteString("def flattenReads : List String := " + c17_leanStrList(flat) + "\n\n")
+
+	sort.Slice(meths, func(i, j int) bool { return meths[i].name < meths[j].name })
+	var accs []string
+	for _, m := range meths {
+		if !ast.IsExported(m.name) {
+			continue
+		}
+		set := map[string]bool{}
+		recv := recvIdent(m.fd)
+		ast.Inspect(m.fd.Body, func(n ast.Node) bool {
+			switch x := n.(type) {
+			case *ast.SelectorExpr:
+				s := cp.info.Selections[x]
+				if s == nil {
+					return true
+				}
+				switch s.Kind() {
+				case types.FieldVal:
+					if v, ok := s.Obj().(*types.Var); ok && codeField[v] {
+						set[v.Name()] = true
+					}
+				case types.MethodVal, types.MethodExpr:
+					if isCodeMethod(s.Obj()) {
+						set[s.Obj().Name()+"()"] = true
+					}
+				}
+			case *ast.CallExpr:
+				// the receiver handed on as a plain argument: f(c) (builtins such as append excluded)
+				if id, ok := x.Fun.(*ast.Ident); ok {
+					if _, builtin := cp.info.Uses[id].(*types.Builtin); builtin {
+						return true
+					}
+				}
+				for _, a := range x.Args {
+					if id, ok := a.(*ast.Ident); ok && id.Name == recv {
+						set[types.ExprString(x.Fun)+"(recv)"] = true
+					}
+				}
+			}
+			return true
+		})
+		accs = append(accs, fmt.Sprintf("(%s, %s)", strconv.Quote(m.name), c17_leanStrList(c17_sortedSet(set))))
+	}
+	if len(accs) < 5 {
+		panic("C17: exported methods of *Code not found")
+	}
+	sb.WriteString("/-- every exported method of *Code in compiler/code.go, sorted by name, with the sorted fields of Code its body selects on any value of type Code/*Code (type-checked, so `curr := c; curr.parent` counts); a method of *Code it uses is written `M()`, the receiver passed on as an argument `f(recv)` -/\n")
+	sb.WriteString("def codeAccessors : List (String × List String) := [\n  " + strings.Join(accs, ",\n  ") + "]\n\n")
+
+	// package vm: every selector that resolves (go/types) to a method of compiler.Code
+	vmSet := map[string]bool{}
+	vmFieldSel := 0
+	for _, f := range vmPkg.files {
+		ast.Inspect(f, func(n ast.Node) bool {
+			x, ok := n.(*ast.SelectorExpr)
+			if !ok {
+				return true
+			}
+			s := vmPkg.info.Selections[x]
+			if s == nil {
+				return true
+			}
+			switch s.Kind() {
+			case types.MethodVal, types.MethodExpr:
+				if isCodeMethod(s.Obj()) {
+					vmSet[s.Obj().Name()] = true
+				}
+			case types.FieldVal:
+				if v, ok := s.Obj().(*types.Var); ok && codeField[v] {
+					vmFieldSel++
+				}
+			}
+			return true
+		})
+	}
+	if len(vmSet) < 3 || vmFieldSel != 0 {
+		panic("C17: methods of *compiler.Code used by package vm not found")
+	}
+	sb.WriteString("/-- the methods of *compiler.Code that package vm (non-test files) selects, called or taken as a value, sorted; resolved with go/types (the method selected is declared on compiler.Code, directly or promoted through the embedding in vm.code; files behind the `verif` build tag are not loaded) -/\n")
+	sb.WriteString("def vmCodeMethods : List String := " + c17_leanStrList(c17_sortedSet(vmSet)) + "\n\n")
+}
+
+// c17_opcodes: every constant of type Code declared in op/op.go with its number, in source
+// order (FragWF.lean assembles the fragment compilers' output into []op.Code words).
+func c17_opcodes(sb *strings.Builder, repo string) {
+	fset := token.NewFileSet()
+	f, err := parser.ParseFile(fset, repo+"/op/op.go", nil, 0)
+	if err != nil {
+		panic(err)
+	}
+	var items []string
+	for _, d := range f.Decls {
+		gd, ok := d.(*ast.GenDecl)
+		if !ok || gd.Tok != token.CONST {
+			continue
+		}
+		for _, s := range gd.Specs {
+			vs := s.(*ast.ValueSpec)
+			id, ok := vs.Type.(*ast.Ident)
+			if !ok || id.Name != "Code" || len(vs.Names) != 1 || len(vs.Values) != 1 {
+				continue
+			}
+			lit, ok := vs.Values[0].(*ast.BasicLit)
+			if !ok || lit.Kind != token.INT {
+				panic("C17: opcode " + vs.Names[0].Name + " is not an integer literal")
+			}
+			items = append(items, "("+strconv.Quote(vs.Names[0].Name)+", "+lit.Value+")")
+		}
+	}
+	if len(items) < 40 {
+		panic("C17: too few opcodes found in op/op.go")
+	}
+	sb.WriteString("\n/-- every `Code` constant of op/op.go with its number, in source order -/\n")
+	sb.WriteString("def opcodes : List (String × Nat) := [" + strings.Join(items, ", ") + "]\n\n")
 }
